@@ -76,9 +76,10 @@ int main_replay(){
 }
 '''
 def replay(prop, body):
+    asan = ["-fsanitize=address", "-fno-omit-frame-pointer"] if "AddressSanitizer" in body else []
     def rp(job, ob, vals, wd):
         hdr = "Replay through the public API of the real code.\nproperty %s job %s\nobligation %s: %s\nat %s" % (prop, job.name, ob["name"], ob["description"], ob["location"])
-        return RP.write_and_run(prop, job.name + "." + ob["name"], hdr, ['"TasmanianSparseGrid.hpp"', '<cmath>', '<sstream>'], body, "  main_replay();", lib="sg", timeout=120)
+        return RP.write_and_run(prop, job.name + "." + ob["name"], hdr, ['"TasmanianSparseGrid.hpp"', '<cmath>', '<sstream>'], body, "  main_replay();", lib="sg", timeout=120, flags=asan)
     return rp
 
 REPLAY_RELOAD = r'''
@@ -101,6 +102,19 @@ int main_replay(){
     std::vector<double> c1 = g.getCandidateConstructionPoints(type_level, 0), c2 = r.getCandidateConstructionPoints(type_level, 0);
     if (c1 != c2) { std::printf("%s%s, %d candidates loaded: the restored grid asks for %zu candidates, the original for %zu\n", fam ? "Fourier" : "Global", fresh ? " (from scratch)" : "", nload, c2.size() / 2, c1.size() / 2); bad++; }
   }
+  {   /* a tensor that is complete but blocked when the grid is written: 1-D Clenshaw-Curtis, level 0 and both level-2 samples delivered before level 1 */
+    TasmanianSparseGrid g = makeGlobalGrid(1, 1, 2, type_level, rule_clenshawcurtis);
+    g.beginConstruction();
+    std::vector<double> c = g.getCandidateConstructionPoints(type_level, 0);
+    auto f = [](double x)->std::vector<double>{ return std::vector<double>{std::exp(x)}; };
+    if (c.size() == 5) {
+      g.loadConstructedPoints(std::vector<double>{c[0]}, f(c[0])); g.loadConstructedPoints(std::vector<double>{c[3]}, f(c[3])); g.loadConstructedPoints(std::vector<double>{c[4]}, f(c[4]));
+      std::stringstream ss; g.write(ss, true); TasmanianSparseGrid r; r.read(ss, true);
+      for (int i = 1; i < 3; i++) { g.loadConstructedPoints(std::vector<double>{c[i]}, f(c[i])); r.loadConstructedPoints(std::vector<double>{c[i]}, f(c[i])); }
+      g.finishConstruction(); r.finishConstruction();
+      if (g.getNumLoaded() != r.getNumLoaded()) { std::printf("blocked complete tensor: the original ends with %d loaded points, the restored grid with %d\n", g.getNumLoaded(), r.getNumLoaded()); bad++; }
+    }
+  }
   __CPROVER_assert(bad == 0, "C17 a restored construction does not ask again for samples that were checkpointed");
   return 0;
 }
@@ -108,6 +122,30 @@ int main_replay(){
 def replay_reload(prop):
     return replay(prop, REPLAY_RELOAD)
 
+REPLAY_RESTRICT = r'''
+/* On the real library (AddressSanitizer): a Global / Fourier grid under construction with stored points is copied with an output sub-range; the copy finishes its construction and must reproduce its output. */
+int main_replay(){
+  using namespace TasGrid;
+  int bad = 0;
+  for (int fam = 0; fam < 2; fam++) {
+    TasmanianSparseGrid g = fam == 0 ? makeGlobalGrid(2, 3, 1, type_level, rule_clenshawcurtis) : makeFourierGrid(2, 3, 1, type_level);
+    auto f = [](double a, double b, int k)->double{ return std::exp(a + 0.5 * b) * (k + 1) + k; };
+    { std::vector<double> p = g.getNeededPoints(), v(3 * g.getNumNeeded()); for (int i = 0; i < g.getNumNeeded(); i++) for (int k = 0; k < 3; k++) v[3*i+k] = f(p[2*i], p[2*i+1], k); g.loadNeededValues(v); }
+    g.beginConstruction();
+    std::vector<double> c = g.getCandidateConstructionPoints(type_level, 0); int n = (int) c.size() / 2;
+    for (int i = 0; i + 1 < n; i++) g.loadConstructedPoints(std::vector<double>{c[2*i], c[2*i+1]}, std::vector<double>{f(c[2*i], c[2*i+1], 0), f(c[2*i], c[2*i+1], 1), f(c[2*i], c[2*i+1], 2)});
+    TasmanianSparseGrid h; h.copyGrid(&g, 1, 2);
+    std::vector<double> c2 = h.getCandidateConstructionPoints(type_level, 0);
+    for (size_t i = 0; i < c2.size() / 2; i++) h.loadConstructedPoints(std::vector<double>{c2[2*i], c2[2*i+1]}, std::vector<double>{f(c2[2*i], c2[2*i+1], 1)});
+    h.finishConstruction();
+    std::vector<double> p = h.getLoadedPoints(); int miss = 0;
+    for (int i = 0; i < h.getNumLoaded(); i++) { double y; h.evaluate(&p[2*i], &y); if (!(std::abs(y - f(p[2*i], p[2*i+1], 1)) < 1.E-9)) miss++; }
+    if (miss || h.getNumOutputs() != 1) { std::printf("%s: the restricted copy has %d outputs, %d of %d loaded points do not reproduce the copied output\n", fam ? "Fourier" : "Global", h.getNumOutputs(), miss, h.getNumLoaded()); bad++; }
+  }
+  __CPROVER_assert(bad == 0, "C11 an output-restricted copy of a grid under construction is a working, independent grid");
+  return 0;
+}
+'''
 def _ctor_order():
     """the read constructor initialises tensors from readTensorDataList and then data from readNodeDataList (declaration order of the members decides)"""
     ht = X.strip_comments(X.read_source(dyncon.HPP))
@@ -150,7 +188,16 @@ def jobs(tier, seed, prop):
                        bounded="at most %d tensors (full unwinding with unwinding assertions)" % nl,
                        assumed=["std::forward_list semantics as in the shim (rule R5fl)", "tensor weights are not NaN"],
                        label="clearTesnors drops every non-initial tensor and keeps the initial ones in order"))
-    if prop == "C17":
+    if prop == "C11":
+        R = X.Rules()
+        t, info = dyncon.emit_restrict(R)
+        t3 = [t_ for k, a, t_ in cf.sections if k == "text3"][0]
+        out.append(Job("dyncon.restrictData", pre + t3 + t + cf.text(("harness",), ["h_restrictData"]), "h_restrictData", unwind=nl + 3, timeout=300,
+                       functions=["%s:%d %s" % (f["file"], f["line"], f["name"]) for f in info["functions"]], info=info, replay=replay(prop, REPLAY_RESTRICT),
+                       bounded="at most %d stored nodes (full unwinding with unwinding assertions)" % nl,
+                       assumed=["std::forward_list semantics as in the shim (rule R5fl); value vectors are ghost descriptors (identity, length)"],
+                       label="restrictData: the output-restricted copy of the construction data keeps the class invariant (values per node == num_outputs)"))
+    if prop in ("C17", "C06"):
         R = X.Rules()
         t, info = dyncon.emit_reload(R)
         t2 = [t_ for k, a, t_ in cf.sections if k == "text2"][0]
